@@ -126,7 +126,7 @@ def pass (h : Nat) : List (List Nat) → Pass
         | .higher h' r => .higher h' ((x :: s') :: r)
 
 /-- the restart loop; every restart strictly raises `highest` to an element of some range, so
-`fuel` = total number of elements suffices (`Proofs/FilterInter.lean: firstInterFuel_enough`). -/
+`fuel` = largest element + 1 suffices (`Proofs/FilterInter2.lean: firstInterFuel_complete`). -/
 def firstInterFuel : Nat → Nat → List (List Nat) → Option (Option (Nat × List (List Nat)))
   | 0, _, _ => none
   | fuel+1, h, sets =>
@@ -137,6 +137,8 @@ def firstInterFuel : Nat → Nat → List (List Nat) → Option (Option (Nat × 
 
 def totalLen (sets : List (List Nat)) : Nat := (sets.map List.length).foldr (· + ·) 0
 
+def maxElem (sets : List (List Nat)) : Nat := sets.flatten.foldr max 0
+
 /-- `detail::FirstIntersectionSorted(sets)` (precondition `sets ≠ []`): lowest common element
 and the advanced ranges. -/
 def firstInterSets (sets : List (List Nat)) : Option (Nat × List (List Nat)) :=
@@ -144,7 +146,7 @@ def firstInterSets (sets : List (List Nat)) : Option (Nat × List (List Nat)) :=
   | [] => none
   | [] :: _ => none
   | (x :: s) :: rest =>
-    match firstInterFuel (totalLen sets + 1) x ((x :: s) :: rest) with
+    match firstInterFuel (maxElem sets + 1) x ((x :: s) :: rest) with
     | some r => r
     | none => none
 
@@ -205,6 +207,115 @@ def lastSpaceIdx (g : Bytes) : Nat :=
 /-- `ContextFilter::AddNGram`: the n-gram up to (not including) its last space; precondition
 `g ≠ []` (the C++ reads `g[-1]` and builds a piece of length −1 otherwise). -/
 def contextOf (g : Bytes) : Bytes := g.take (lastSpaceIdx g)
+
+
+/-! ## lm/filter/phrase.{hh,cc} at specification level
+
+`phrase` mode: the vocabulary file has one sentence per line, phrases separated by tab (or VT),
+words by spaces.  An n-gram must be kept for sentence `s` when it can be read off a
+concatenation of phrases of `s`: it is a substring of one phrase, or a non-empty suffix of a
+phrase, then whole phrases, then a non-empty prefix of a phrase (`BuildGraph`: `SetRight` arcs,
+`SetPhrase` arcs between word positions, `FindLeft` for the last segment, `FindSubstring` for
+the whole n-gram).  The lazy graph search itself (`Vertex::LowerBound` / `Arc::LowerBound`) and
+the 64-bit hashing (collisions make the tool more permissive) are not modelled: `tilesB` is the
+lower bound the tool must respect. -/
+
+def isLineBreak (c : UInt8) : Bool := c = 10 || c = 12 || c = 13
+def isPhraseSep (c : UInt8) : Bool := c = 9 || c = 11
+
+/-- `phrase::ReadMultiple`: sentences (lines with at least one phrase) of phrases of words -/
+def readPhraseSentences (v : Bytes) : List (List (List Bytes)) :=
+  ((splitBy isLineBreak v).map fun ln =>
+    ((splitBy isPhraseSep ln).map words).filter (· ≠ [])).filter (· ≠ [])
+
+def bEos : Bytes := [60, 47, 115, 62]   -- "</s>"
+
+/-- `detail::MakeHashes`: a tag in first position is skipped, everything from `</s>` on is ignored -/
+def phraseWords (ws : List Bytes) : List Bytes :=
+  let r := match ws with
+    | [] => []
+    | w :: r => if isTag w then r else w :: r
+  r.takeWhile (· ≠ bEos)
+
+/-- `g` is a contiguous part of `p` -/
+def isSubstr (g : List Bytes) : List Bytes → Bool
+  | [] => g.isPrefixOf []
+  | x :: p => g.isPrefixOf (x :: p) || isSubstr g p
+
+def isSuffixOfAny (phrases : List (List Bytes)) (g : List Bytes) : Bool := phrases.any fun p => g.isSuffixOf p
+def isPrefixOfAny (phrases : List (List Bytes)) (g : List Bytes) : Bool := phrases.any fun p => g.isPrefixOf p
+
+/-- the rest after the first segment: whole phrases, then a non-empty prefix of a phrase -/
+def tilesRest (phrases : List (List Bytes)) : Nat → List Bytes → Bool
+  | 0, _ => false
+  | fuel+1, r =>
+    (r ≠ [] && isPrefixOfAny phrases r) ||
+    phrases.any fun p => p ≠ [] && p.isPrefixOf r && tilesRest phrases fuel (r.drop p.length)
+
+/-- all ways to cut `g` into a non-empty head and a non-empty tail -/
+def cuts (g : List Bytes) : List (List Bytes × List Bytes) :=
+  (List.range (g.length - 1)).map fun i => (g.take (i+1), g.drop (i+1))
+
+/-- executable `Tiles` for one sentence -/
+def tilesB (phrases : List (List Bytes)) (g : List Bytes) : Bool :=
+  phrases.any (isSubstr g) ||
+  (cuts g).any fun c => isSuffixOfAny phrases c.1 && tilesRest phrases (c.2.length + 1) c.2
+
+/-- the sentences for which the n-gram (already tokenised) must be kept; `none` = all
+(no word left after `MakeHashes`) -/
+def phraseMust (sents : List (List (List Bytes))) (ws : List Bytes) : Verdict :=
+  let g := phraseWords ws
+  if g = [] then .all
+  else .only ((List.range sents.length).filter fun s => tilesB (sents.getD s []) g)
+
+def phraseMustUnion (sents : List (List (List Bytes))) (ws : List Bytes) : Verdict :=
+  match phraseMust sents ws with
+  | .all => .all
+  | .only [] => .only []
+  | .only _ => .all
+
+
+/-! ### the search graph of `BuildGraph` (semantic tables, no hashing, no lazy evaluation)
+
+`Substrings::AddPhrase` enters every contiguous part of every phrase as a key; `FindX(key)`
+fails only when the key is no part of any phrase of any sentence, and then the loops of
+`BuildGraph` `break`.  `graphAccept sents s g` = "there is a path of arcs that all contain
+sentence `s` into the last vertex" — what `Vertex::LowerBound` computes lazily for all `s` at
+once (that lazy evaluation is tied by correspondence only). -/
+
+/-- the key is in the hash table -/
+def present (sents : List (List (List Bytes))) (k : List Bytes) : Bool :=
+  sents.any fun ph => ph.any (isSubstr k)
+
+/-- the loop reached this key without `break`: every non-empty prefix is in the table -/
+def prefixesPresent (sents : List (List (List Bytes))) (k : List Bytes) : Bool :=
+  (List.range k.length).all fun i => present sents (k.take (i+1))
+
+/-- arcs from the vertex before `r` to the last vertex: `SetPhrase` arcs over whole phrases,
+the last one over a left-aligned part (`FindLeft`) -/
+def graphRest (sents : List (List (List Bytes))) (phrases : List (List Bytes)) : Nat → List Bytes → Bool
+  | 0, _ => false
+  | fuel+1, r =>
+    (r ≠ [] && prefixesPresent sents r.dropLast && isPrefixOfAny phrases r) ||
+    (cuts r).any fun c => prefixesPresent sents c.1 && phrases.contains c.1 && graphRest sents phrases fuel c.2
+
+def graphAccept (sents : List (List (List Bytes))) (s : Nat) (g : List Bytes) : Bool :=
+  let phrases := sents.getD s []
+  (prefixesPresent sents g.dropLast && phrases.any (isSubstr g)) ||
+  (cuts g).any fun c => prefixesPresent sents c.1 && isSuffixOfAny phrases c.1 &&
+    graphRest sents phrases (c.2.length + 1) c.2
+
+/-- what `phrase::Multiple` / `phrase::Union` do with an n-gram, absent hash collisions -/
+def phraseVerdict (sents : List (List (List Bytes))) (ws : List Bytes) : Verdict :=
+  let g := phraseWords ws
+  if g = [] then .all
+  else .only ((List.range sents.length).filter fun s => graphAccept sents s g)
+
+def phraseVerdictUnion (sents : List (List (List Bytes))) (ws : List Bytes) : Verdict :=
+  match phraseVerdict sents ws with
+  | .all => .all
+  | .only [] => .only []
+  | .only _ => .all
 
 /-! ## modes -/
 
